@@ -13,7 +13,7 @@ import (
 
 // ---- C03: relevant transactions delivered completely and exactly once (DD) -----------------------------
 
-var c03Sources = []string{"trusted-inv", "trusted-bare", "untrusted-inv", "untrusted-bare", "local"}
+var c03Sources = []string{"trusted-inv", "trusted-bare", "untrusted-inv", "untrusted-bare", "local", "trusted-inv-nobody", "untrusted-inv-nobody"}
 var c03Kinds = []string{"out-push", "in-push", "hashed-out", "none", "none"}
 
 // c03Scenario drives one generated history and returns the world.
@@ -68,11 +68,14 @@ func c03ScenarioOpt(r *rand.Rand, conflicts bool, c11 bool) (*txWorld, string, e
 		case k < 50: // a tx arrives (again) from some source
 			t := pool[r.Intn(len(pool))]
 			src := c03Sources[r.Intn(len(c03Sources))]
+			if len(src) > 7 && src[len(src)-6:] == "nobody" && r.Intn(2) == 0 {
+				src = c03Sources[r.Intn(5)]
+			}
 			if confirmed[t] {
 				fp += "R" // re-announced after confirmation
 			}
 			w.arrive(t, src, r.Intn(4) > 0)
-			if !confirmed[t] {
+			if !confirmed[t] && t.processedUnconf > 0 {
 				unconf[t] = true
 			}
 			fp += src[:1] + src[len(src)-1:]
@@ -173,7 +176,7 @@ func TestVerif_C03(t *testing.T) {
 			continue
 		}
 		r := verifkit.Rand("C03", ci)
-		w, fp, err := c03Scenario(r, false)
+		w, fp, err := c03Scenario(r, ci%3 == 2)
 		if err != nil {
 			rep.Inconc(ci, err.Error())
 			continue
